@@ -68,6 +68,9 @@ macro_rules! wrappers {
         row!("Map<&ArcSwapAny,P,fn>", Map<&'static ArcSwapAny<$p>, $p, fn(&$p) -> &$p>, $pname, $p);
         row!("MapGuard<Guard<P>,fn,P,P>", MapGuard<Guard<$p>, fn(&$p) -> &$p, $p, $p>, $pname, $p);
         row!("DynGuard<P>", DynGuard<$p>, $pname, $p);
+        // The guard behind a DynGuard is erased: a `DynGuard<u32>` may come from a projection
+        // (`Map<_, P, fn(&P) -> &u32>` behind `dyn DynAccess<u32>`) and then owns a guard of P.
+        row!("DynGuard<u32> (erased guard of P behind a projection)", DynGuard<u32>, $pname, $p);
         row!("AccessConvert<Box<dyn DynAccess<P>>>", AccessConvert<Box<dyn DynAccess<$p>>>, $pname, $p);
         row!("AccessConvert<Box<dyn DynAccess<P>+Send+Sync>>", AccessConvert<Box<dyn DynAccess<$p> + Send + Sync>>, $pname, $p);
     };
@@ -75,6 +78,9 @@ macro_rules! wrappers {
 
 macro_rules! kinds {
     ($xname:expr, $x:ty) => {
+        // `ArcSwapAny<Arc<X>>: Access<X>`, so `dyn DynAccess<X>` hands out `DynGuard<X>` owning a guard of Arc<X> / Rc<X>
+        row!("DynGuard<X> (erased guard of P, X its pointee)", DynGuard<$x>, concat!("Arc<", $xname, ">"), Arc<$x>);
+        row!("DynGuard<X> (erased guard of P, X its pointee)", DynGuard<$x>, concat!("Rc<", $xname, ">"), Rc<$x>);
         wrappers!(concat!("Arc<", $xname, ">"), Arc<$x>);
         wrappers!(concat!("Option<Arc<", $xname, ">>"), Option<Arc<$x>>);
         wrappers!(concat!("Rc<", $xname, ">"), Rc<$x>);
